@@ -33,8 +33,12 @@ def gen_case(seed, i):
         cfg["transform"] = t[0]
         cfg["transform_flags"] = list(t[1])
     nroots = rng.choice([1, 1, 2, 3])
+    # every 8th world is "wide": one or two families with up to 48 files, i.e. dozens of entries of one size
+    # (batching / chunking by pool size only shows on classes larger than a batch), with overlapping input paths
+    wide = rng.random() < 0.125
     world, roots = gen.gen_world(rng, cfg, nroots=nroots, hostile=rng.random() < 0.4,
-                                 max_files=rng.choice([6, 12, 24]), families=rng.randint(1, 5))
+                                 max_files=48 if wide else rng.choice([6, 12, 24]),
+                                 families=rng.choice([1, 2]) if wide else rng.randint(1, 5), wide=wide)
     if cfg.get("transform"):
         cfg["cache"] = rng.random() < 0.5          # warm-cache runs matter most with transforms
         for e in world.entries:
@@ -50,16 +54,19 @@ def gen_case(seed, i):
         world.entries += extra
     rootargs = list(roots)
     r = rng.random()
+    if wide:
+        r = 0.05 + 0.2 * rng.random()                  # repeated or overlapping input path
+    at = rng.randint(0, len(rootargs))                 # before, between or after the other input paths
     if r < 0.1:
-        rootargs.append(rng.choice(roots))            # repeated root
+        rootargs.insert(at, rng.choice(roots))         # repeated root
     elif r < 0.25:
         subs = [e["p"] for e in world.entries if e["t"] == "d" and "/" in e["p"]]
         if subs:
-            rootargs.append(rng.choice(subs))          # overlapping root
+            rootargs.insert(at, rng.choice(subs))      # overlapping root (inner one first or last)
     elif r < 0.3:
         fs = [e["p"] for e in world.entries if e["t"] == "f"]
         if fs:
-            rootargs.append(rng.choice(fs))            # a file given as a root as well
+            rootargs.insert(at, rng.choice(fs))        # a file given as a root as well
     filt = {}
     r = rng.random()
     if r < 0.2:
